@@ -1,6 +1,7 @@
 #![allow(unused, dead_code, clippy::all)]
 use generic_array::typenum::*;
 use generic_array::{arr, box_arr, ArrayLength, ConstArrayLength, GenericArray as GA};
+use generic_array::functional::FunctionalSequence;
 use std::cell::RefCell;
 type N<const K: usize> = ConstArrayLength<K>;
 thread_local! { static LOG: RefCell<Vec<u32>> = const { RefCell::new(Vec::new()) }; static DROPS: RefCell<Vec<u32>> = const { RefCell::new(Vec::new()) }; }
@@ -3028,6 +3029,538 @@ fn case_misc() -> Result<(), String> {
     ck!(nested[2][1] == 6, "nested arr!");
     Ok(())
 }
+fn case_cfg_elements_first() -> Result<(), String> {
+    take_log(); let nat: &[u32] = &[#[cfg(any())] lg(0), lg(1), lg(2)]; let nlog = take_log();
+    let a: GA<u32, _> = arr![#[cfg(any())] lg(0), lg(1), lg(2)]; let alog = take_log();
+    ck!(a.as_slice() == &nat[..] && alog == nlog, "arr! with attribute-carrying elements gives {:?} (evaluated {:?}), the native literal gives {:?} (evaluated {:?})", a.as_slice(), alog, nat, nlog);
+    let b: Box<GA<u32, _>> = box_arr![#[cfg(any())] lg(0), lg(1), lg(2)]; let blog = take_log();
+    ck!(b.as_slice() == &nat[..] && blog == nlog, "box_arr! with attribute-carrying elements gives {:?} (evaluated {:?}), the native literal gives {:?} (evaluated {:?})", b.as_slice(), blog, nat, nlog);
+    Ok(())
+}
+fn case_cfg_elements_middle() -> Result<(), String> {
+    take_log(); let nat: &[u32] = &[lg(0), #[cfg(any())] lg(1), lg(2)]; let nlog = take_log();
+    let a: GA<u32, _> = arr![lg(0), #[cfg(any())] lg(1), lg(2)]; let alog = take_log();
+    ck!(a.as_slice() == &nat[..] && alog == nlog, "arr! with attribute-carrying elements gives {:?} (evaluated {:?}), the native literal gives {:?} (evaluated {:?})", a.as_slice(), alog, nat, nlog);
+    let b: Box<GA<u32, _>> = box_arr![lg(0), #[cfg(any())] lg(1), lg(2)]; let blog = take_log();
+    ck!(b.as_slice() == &nat[..] && blog == nlog, "box_arr! with attribute-carrying elements gives {:?} (evaluated {:?}), the native literal gives {:?} (evaluated {:?})", b.as_slice(), blog, nat, nlog);
+    Ok(())
+}
+fn case_cfg_elements_last() -> Result<(), String> {
+    take_log(); let nat: &[u32] = &[lg(0), lg(1), #[cfg(any())] lg(2)]; let nlog = take_log();
+    let a: GA<u32, _> = arr![lg(0), lg(1), #[cfg(any())] lg(2)]; let alog = take_log();
+    ck!(a.as_slice() == &nat[..] && alog == nlog, "arr! with attribute-carrying elements gives {:?} (evaluated {:?}), the native literal gives {:?} (evaluated {:?})", a.as_slice(), alog, nat, nlog);
+    let b: Box<GA<u32, _>> = box_arr![lg(0), lg(1), #[cfg(any())] lg(2)]; let blog = take_log();
+    ck!(b.as_slice() == &nat[..] && blog == nlog, "box_arr! with attribute-carrying elements gives {:?} (evaluated {:?}), the native literal gives {:?} (evaluated {:?})", b.as_slice(), blog, nat, nlog);
+    Ok(())
+}
+fn case_cfg_elements_all() -> Result<(), String> {
+    take_log(); let nat: &[u32] = &[#[cfg(any())] lg(0), #[cfg(any())] lg(1)]; let nlog = take_log();
+    let a: GA<u32, _> = arr![#[cfg(any())] lg(0), #[cfg(any())] lg(1)]; let alog = take_log();
+    ck!(a.as_slice() == &nat[..] && alog == nlog, "arr! with attribute-carrying elements gives {:?} (evaluated {:?}), the native literal gives {:?} (evaluated {:?})", a.as_slice(), alog, nat, nlog);
+    let b: Box<GA<u32, _>> = box_arr![#[cfg(any())] lg(0), #[cfg(any())] lg(1)]; let blog = take_log();
+    ck!(b.as_slice() == &nat[..] && blog == nlog, "box_arr! with attribute-carrying elements gives {:?} (evaluated {:?}), the native literal gives {:?} (evaluated {:?})", b.as_slice(), blog, nat, nlog);
+    Ok(())
+}
+fn case_cfg_elements_enabled() -> Result<(), String> {
+    take_log(); let nat: &[u32] = &[lg(0), #[cfg(all())] lg(1), #[allow(unused_parens)] (lg(2))]; let nlog = take_log();
+    let a: GA<u32, _> = arr![lg(0), #[cfg(all())] lg(1), #[allow(unused_parens)] (lg(2))]; let alog = take_log();
+    ck!(a.as_slice() == &nat[..] && alog == nlog, "arr! with attribute-carrying elements gives {:?} (evaluated {:?}), the native literal gives {:?} (evaluated {:?})", a.as_slice(), alog, nat, nlog);
+    let b: Box<GA<u32, _>> = box_arr![lg(0), #[cfg(all())] lg(1), #[allow(unused_parens)] (lg(2))]; let blog = take_log();
+    ck!(b.as_slice() == &nat[..] && blog == nlog, "box_arr! with attribute-carrying elements gives {:?} (evaluated {:?}), the native literal gives {:?} (evaluated {:?})", b.as_slice(), blog, nat, nlog);
+    Ok(())
+}
+fn case_cfg_elements_two() -> Result<(), String> {
+    take_log(); let nat: &[u32] = &[#[cfg(any())] lg(0), lg(1), #[cfg(any())] lg(2), lg(3),]; let nlog = take_log();
+    let a: GA<u32, _> = arr![#[cfg(any())] lg(0), lg(1), #[cfg(any())] lg(2), lg(3),]; let alog = take_log();
+    ck!(a.as_slice() == &nat[..] && alog == nlog, "arr! with attribute-carrying elements gives {:?} (evaluated {:?}), the native literal gives {:?} (evaluated {:?})", a.as_slice(), alog, nat, nlog);
+    let b: Box<GA<u32, _>> = box_arr![#[cfg(any())] lg(0), lg(1), #[cfg(any())] lg(2), lg(3),]; let blog = take_log();
+    ck!(b.as_slice() == &nat[..] && blog == nlog, "box_arr! with attribute-carrying elements gives {:?} (evaluated {:?}), the native literal gives {:?} (evaluated {:?})", b.as_slice(), blog, nat, nlog);
+    Ok(())
+}
+struct Guard(u32);
+impl Guard { fn v(&self) -> u32 { LOG.with(|l| l.borrow_mut().push(self.0)); self.0 } }
+impl Drop for Guard { fn drop(&mut self) { LOG.with(|l| l.borrow_mut().push(1000 + self.0)); } }
+fn g(i: u32) -> Guard { LOG.with(|l| l.borrow_mut().push(100 + i)); Guard(i) }
+fn used<T: AsRef<[u32]>>(a: T) -> usize { LOG.with(|l| l.borrow_mut().push(500)); a.as_ref().len() }
+fn case_temporaries() -> Result<(), String> {
+    take_log(); let _ = used([g(1).v(), g(2).v(), g(3).v()]); let nat = take_log();
+    let _ = used(arr![g(1).v(), g(2).v(), g(3).v()]); let a = take_log();
+    ck!(a == nat, "temporaries of arr! element expressions: event order {:?}, with the native literal {:?}", a, nat);
+    let _ = used(*box_arr![g(1).v(), g(2).v(), g(3).v()]); let b = take_log();
+    ck!(b == nat, "temporaries of box_arr! element expressions: event order {:?}, with the native literal {:?}", b, nat);
+    let nat = { take_log(); let n = [g(4).v(), g(5).v()].map(|x| { LOG.with(|l| l.borrow_mut().push(600)); x }); take_log() };
+    let a = { let n = arr![g(4).v(), g(5).v()].map(|x| { LOG.with(|l| l.borrow_mut().push(600)); x }); take_log() };
+    ck!(a == nat, "temporaries of arr! elements in a method chain: event order {:?}, with the native literal {:?}", a, nat);
+    Ok(())
+}
+fn case_inference() -> Result<(), String> {
+    let d: GA<&dyn core::fmt::Debug, U2> = arr![&1u8, &"x"]; ck!(format!("{:?}", d[1]) == "\"x\"", "arr! with elements coerced to a trait object");
+    let o: GA<Option<u8>, U2> = arr![None, None]; ck!(o[0].is_none(), "arr! with the element type known from the expected type only");
+    let ob: Box<GA<Option<u8>, U2>> = box_arr![None, None]; ck!(ob[1].is_none(), "box_arr! with the element type known from the expected type only");
+    let db: Box<GA<&dyn core::fmt::Debug, U2>> = box_arr![&1u8, &"x"]; ck!(format!("{:?}", db[0]) == "1", "box_arr! with elements coerced to a trait object");
+    let n = arr![&String::from("ab")[..], "c"].map(|s| s.len()); ck!(n == arr![2usize, 1], "arr! with an element borrowing from its own temporary");
+    let nb = box_arr![&String::from("ab")[..], "c"].iter().map(|s| s.len()).sum::<usize>(); ck!(nb == 3, "box_arr! with an element borrowing from its own temporary");
+    let f = arr![|x: u8| x + 1]; ck!((f[0])(1) == 2, "arr! of a closure");
+    let fb = box_arr![|x: u8| x + 2]; ck!((fb[0])(1) == 3, "box_arr! of a closure");
+    let big = box_arr![[7u8; 1 << 16], [8u8; 1 << 16]]; ck!(big[1][65535] == 8, "box_arr! of large elements");
+    Ok(())
+}
+fn case_hygiene_ArrayLength() -> Result<(), String> {
+    #[allow(non_upper_case_globals, non_snake_case)] {
+    const ArrayLength: usize = 9;
+    let a = arr![ArrayLength; U4]; ck!(a.as_slice() == [9usize; 4], "arr![ArrayLength; U4] with a caller constant named ArrayLength = 9 gives {:?}", a.as_slice());
+    let c = arr![ArrayLength; 3]; ck!(c.as_slice() == [9usize; 3], "arr![ArrayLength; 3] with a caller constant named ArrayLength = 9 gives {:?}", c.as_slice());
+    let l = arr![ArrayLength, ArrayLength + 1]; ck!(l.as_slice() == [9usize, 10], "arr![ArrayLength, ArrayLength + 1] with a caller constant named ArrayLength = 9 gives {:?}", l.as_slice());
+    let b = box_arr![ArrayLength; U4]; ck!(b.as_slice() == [9usize; 4], "box_arr![ArrayLength; U4] with a caller constant named ArrayLength = 9 gives {:?}", b.as_slice());
+    let b2 = box_arr![ArrayLength; 3]; ck!(b2.as_slice() == [9usize; 3], "box_arr![ArrayLength; 3] with a caller constant named ArrayLength = 9 gives {:?}", b2.as_slice());
+    let bl = box_arr![ArrayLength, ArrayLength + 1]; ck!(bl.as_slice() == [9usize, 10], "box_arr![ArrayLength, ArrayLength + 1] with a caller constant named ArrayLength = 9 gives {:?}", bl.as_slice());
+    }
+    Ok(())
+}
+fn case_hygiene_Box() -> Result<(), String> {
+    #[allow(non_upper_case_globals, non_snake_case)] {
+    const Box: usize = 9;
+    let a = arr![Box; U4]; ck!(a.as_slice() == [9usize; 4], "arr![Box; U4] with a caller constant named Box = 9 gives {:?}", a.as_slice());
+    let c = arr![Box; 3]; ck!(c.as_slice() == [9usize; 3], "arr![Box; 3] with a caller constant named Box = 9 gives {:?}", c.as_slice());
+    let l = arr![Box, Box + 1]; ck!(l.as_slice() == [9usize, 10], "arr![Box, Box + 1] with a caller constant named Box = 9 gives {:?}", l.as_slice());
+    let b = box_arr![Box; U4]; ck!(b.as_slice() == [9usize; 4], "box_arr![Box; U4] with a caller constant named Box = 9 gives {:?}", b.as_slice());
+    let b2 = box_arr![Box; 3]; ck!(b2.as_slice() == [9usize; 3], "box_arr![Box; 3] with a caller constant named Box = 9 gives {:?}", b2.as_slice());
+    let bl = box_arr![Box, Box + 1]; ck!(bl.as_slice() == [9usize, 10], "box_arr![Box, Box + 1] with a caller constant named Box = 9 gives {:?}", bl.as_slice());
+    }
+    Ok(())
+}
+fn case_hygiene_Const() -> Result<(), String> {
+    #[allow(non_upper_case_globals, non_snake_case)] {
+    const Const: usize = 9;
+    let a = arr![Const; U4]; ck!(a.as_slice() == [9usize; 4], "arr![Const; U4] with a caller constant named Const = 9 gives {:?}", a.as_slice());
+    let c = arr![Const; 3]; ck!(c.as_slice() == [9usize; 3], "arr![Const; 3] with a caller constant named Const = 9 gives {:?}", c.as_slice());
+    let l = arr![Const, Const + 1]; ck!(l.as_slice() == [9usize, 10], "arr![Const, Const + 1] with a caller constant named Const = 9 gives {:?}", l.as_slice());
+    let b = box_arr![Const; U4]; ck!(b.as_slice() == [9usize; 4], "box_arr![Const; U4] with a caller constant named Const = 9 gives {:?}", b.as_slice());
+    let b2 = box_arr![Const; 3]; ck!(b2.as_slice() == [9usize; 3], "box_arr![Const; 3] with a caller constant named Const = 9 gives {:?}", b2.as_slice());
+    let bl = box_arr![Const, Const + 1]; ck!(bl.as_slice() == [9usize, 10], "box_arr![Const, Const + 1] with a caller constant named Const = 9 gives {:?}", bl.as_slice());
+    }
+    Ok(())
+}
+fn case_hygiene_DocTests() -> Result<(), String> {
+    #[allow(non_upper_case_globals, non_snake_case)] {
+    const DocTests: usize = 9;
+    let a = arr![DocTests; U4]; ck!(a.as_slice() == [9usize; 4], "arr![DocTests; U4] with a caller constant named DocTests = 9 gives {:?}", a.as_slice());
+    let c = arr![DocTests; 3]; ck!(c.as_slice() == [9usize; 3], "arr![DocTests; 3] with a caller constant named DocTests = 9 gives {:?}", c.as_slice());
+    let l = arr![DocTests, DocTests + 1]; ck!(l.as_slice() == [9usize, 10], "arr![DocTests, DocTests + 1] with a caller constant named DocTests = 9 gives {:?}", l.as_slice());
+    let b = box_arr![DocTests; U4]; ck!(b.as_slice() == [9usize; 4], "box_arr![DocTests; U4] with a caller constant named DocTests = 9 gives {:?}", b.as_slice());
+    let b2 = box_arr![DocTests; 3]; ck!(b2.as_slice() == [9usize; 3], "box_arr![DocTests; 3] with a caller constant named DocTests = 9 gives {:?}", b2.as_slice());
+    let bl = box_arr![DocTests, DocTests + 1]; ck!(bl.as_slice() == [9usize, 10], "box_arr![DocTests, DocTests + 1] with a caller constant named DocTests = 9 gives {:?}", bl.as_slice());
+    }
+    Ok(())
+}
+fn case_hygiene_GenericArray() -> Result<(), String> {
+    #[allow(non_upper_case_globals, non_snake_case)] {
+    const GenericArray: usize = 9;
+    let a = arr![GenericArray; U4]; ck!(a.as_slice() == [9usize; 4], "arr![GenericArray; U4] with a caller constant named GenericArray = 9 gives {:?}", a.as_slice());
+    let c = arr![GenericArray; 3]; ck!(c.as_slice() == [9usize; 3], "arr![GenericArray; 3] with a caller constant named GenericArray = 9 gives {:?}", c.as_slice());
+    let l = arr![GenericArray, GenericArray + 1]; ck!(l.as_slice() == [9usize, 10], "arr![GenericArray, GenericArray + 1] with a caller constant named GenericArray = 9 gives {:?}", l.as_slice());
+    let b = box_arr![GenericArray; U4]; ck!(b.as_slice() == [9usize; 4], "box_arr![GenericArray; U4] with a caller constant named GenericArray = 9 gives {:?}", b.as_slice());
+    let b2 = box_arr![GenericArray; 3]; ck!(b2.as_slice() == [9usize; 3], "box_arr![GenericArray; 3] with a caller constant named GenericArray = 9 gives {:?}", b2.as_slice());
+    let bl = box_arr![GenericArray, GenericArray + 1]; ck!(bl.as_slice() == [9usize, 10], "box_arr![GenericArray, GenericArray + 1] with a caller constant named GenericArray = 9 gives {:?}", bl.as_slice());
+    }
+    Ok(())
+}
+fn case_hygiene_IntoArrayLength() -> Result<(), String> {
+    #[allow(non_upper_case_globals, non_snake_case)] {
+    const IntoArrayLength: usize = 9;
+    let a = arr![IntoArrayLength; U4]; ck!(a.as_slice() == [9usize; 4], "arr![IntoArrayLength; U4] with a caller constant named IntoArrayLength = 9 gives {:?}", a.as_slice());
+    let c = arr![IntoArrayLength; 3]; ck!(c.as_slice() == [9usize; 3], "arr![IntoArrayLength; 3] with a caller constant named IntoArrayLength = 9 gives {:?}", c.as_slice());
+    let l = arr![IntoArrayLength, IntoArrayLength + 1]; ck!(l.as_slice() == [9usize, 10], "arr![IntoArrayLength, IntoArrayLength + 1] with a caller constant named IntoArrayLength = 9 gives {:?}", l.as_slice());
+    let b = box_arr![IntoArrayLength; U4]; ck!(b.as_slice() == [9usize; 4], "box_arr![IntoArrayLength; U4] with a caller constant named IntoArrayLength = 9 gives {:?}", b.as_slice());
+    let b2 = box_arr![IntoArrayLength; 3]; ck!(b2.as_slice() == [9usize; 3], "box_arr![IntoArrayLength; 3] with a caller constant named IntoArrayLength = 9 gives {:?}", b2.as_slice());
+    let bl = box_arr![IntoArrayLength, IntoArrayLength + 1]; ck!(bl.as_slice() == [9usize, 10], "box_arr![IntoArrayLength, IntoArrayLength + 1] with a caller constant named IntoArrayLength = 9 gives {:?}", bl.as_slice());
+    }
+    Ok(())
+}
+fn case_hygiene_USIZE() -> Result<(), String> {
+    #[allow(non_upper_case_globals, non_snake_case)] {
+    const USIZE: usize = 9;
+    let a = arr![USIZE; U4]; ck!(a.as_slice() == [9usize; 4], "arr![USIZE; U4] with a caller constant named USIZE = 9 gives {:?}", a.as_slice());
+    let c = arr![USIZE; 3]; ck!(c.as_slice() == [9usize; 3], "arr![USIZE; 3] with a caller constant named USIZE = 9 gives {:?}", c.as_slice());
+    let l = arr![USIZE, USIZE + 1]; ck!(l.as_slice() == [9usize, 10], "arr![USIZE, USIZE + 1] with a caller constant named USIZE = 9 gives {:?}", l.as_slice());
+    let b = box_arr![USIZE; U4]; ck!(b.as_slice() == [9usize; 4], "box_arr![USIZE; U4] with a caller constant named USIZE = 9 gives {:?}", b.as_slice());
+    let b2 = box_arr![USIZE; 3]; ck!(b2.as_slice() == [9usize; 3], "box_arr![USIZE; 3] with a caller constant named USIZE = 9 gives {:?}", b2.as_slice());
+    let bl = box_arr![USIZE, USIZE + 1]; ck!(bl.as_slice() == [9usize, 10], "box_arr![USIZE, USIZE + 1] with a caller constant named USIZE = 9 gives {:?}", bl.as_slice());
+    }
+    Ok(())
+}
+fn case_hygiene_Unsigned() -> Result<(), String> {
+    #[allow(non_upper_case_globals, non_snake_case)] {
+    const Unsigned: usize = 9;
+    let a = arr![Unsigned; U4]; ck!(a.as_slice() == [9usize; 4], "arr![Unsigned; U4] with a caller constant named Unsigned = 9 gives {:?}", a.as_slice());
+    let c = arr![Unsigned; 3]; ck!(c.as_slice() == [9usize; 3], "arr![Unsigned; 3] with a caller constant named Unsigned = 9 gives {:?}", c.as_slice());
+    let l = arr![Unsigned, Unsigned + 1]; ck!(l.as_slice() == [9usize, 10], "arr![Unsigned, Unsigned + 1] with a caller constant named Unsigned = 9 gives {:?}", l.as_slice());
+    let b = box_arr![Unsigned; U4]; ck!(b.as_slice() == [9usize; 4], "box_arr![Unsigned; U4] with a caller constant named Unsigned = 9 gives {:?}", b.as_slice());
+    let b2 = box_arr![Unsigned; 3]; ck!(b2.as_slice() == [9usize; 3], "box_arr![Unsigned; 3] with a caller constant named Unsigned = 9 gives {:?}", b2.as_slice());
+    let bl = box_arr![Unsigned, Unsigned + 1]; ck!(bl.as_slice() == [9usize, 10], "box_arr![Unsigned, Unsigned + 1] with a caller constant named Unsigned = 9 gives {:?}", bl.as_slice());
+    }
+    Ok(())
+}
+fn case_hygiene_Vec() -> Result<(), String> {
+    #[allow(non_upper_case_globals, non_snake_case)] {
+    const Vec: usize = 9;
+    let a = arr![Vec; U4]; ck!(a.as_slice() == [9usize; 4], "arr![Vec; U4] with a caller constant named Vec = 9 gives {:?}", a.as_slice());
+    let c = arr![Vec; 3]; ck!(c.as_slice() == [9usize; 3], "arr![Vec; 3] with a caller constant named Vec = 9 gives {:?}", c.as_slice());
+    let l = arr![Vec, Vec + 1]; ck!(l.as_slice() == [9usize, 10], "arr![Vec, Vec + 1] with a caller constant named Vec = 9 gives {:?}", l.as_slice());
+    let b = box_arr![Vec; U4]; ck!(b.as_slice() == [9usize; 4], "box_arr![Vec; U4] with a caller constant named Vec = 9 gives {:?}", b.as_slice());
+    let b2 = box_arr![Vec; 3]; ck!(b2.as_slice() == [9usize; 3], "box_arr![Vec; 3] with a caller constant named Vec = 9 gives {:?}", b2.as_slice());
+    let bl = box_arr![Vec, Vec + 1]; ck!(bl.as_slice() == [9usize, 10], "box_arr![Vec, Vec + 1] with a caller constant named Vec = 9 gives {:?}", bl.as_slice());
+    }
+    Ok(())
+}
+fn case_hygiene__empty() -> Result<(), String> {
+    #[allow(non_upper_case_globals, non_snake_case)] {
+    const _empty: usize = 9;
+    let a = arr![_empty; U4]; ck!(a.as_slice() == [9usize; 4], "arr![_empty; U4] with a caller constant named _empty = 9 gives {:?}", a.as_slice());
+    let c = arr![_empty; 3]; ck!(c.as_slice() == [9usize; 3], "arr![_empty; 3] with a caller constant named _empty = 9 gives {:?}", c.as_slice());
+    let l = arr![_empty, _empty + 1]; ck!(l.as_slice() == [9usize, 10], "arr![_empty, _empty + 1] with a caller constant named _empty = 9 gives {:?}", l.as_slice());
+    let b = box_arr![_empty; U4]; ck!(b.as_slice() == [9usize; 4], "box_arr![_empty; U4] with a caller constant named _empty = 9 gives {:?}", b.as_slice());
+    let b2 = box_arr![_empty; 3]; ck!(b2.as_slice() == [9usize; 3], "box_arr![_empty; 3] with a caller constant named _empty = 9 gives {:?}", b2.as_slice());
+    let bl = box_arr![_empty, _empty + 1]; ck!(bl.as_slice() == [9usize, 10], "box_arr![_empty, _empty + 1] with a caller constant named _empty = 9 gives {:?}", bl.as_slice());
+    }
+    Ok(())
+}
+fn case_hygiene_alloc() -> Result<(), String> {
+    #[allow(non_upper_case_globals, non_snake_case)] {
+    const alloc: usize = 9;
+    let a = arr![alloc; U4]; ck!(a.as_slice() == [9usize; 4], "arr![alloc; U4] with a caller constant named alloc = 9 gives {:?}", a.as_slice());
+    let c = arr![alloc; 3]; ck!(c.as_slice() == [9usize; 3], "arr![alloc; 3] with a caller constant named alloc = 9 gives {:?}", c.as_slice());
+    let l = arr![alloc, alloc + 1]; ck!(l.as_slice() == [9usize, 10], "arr![alloc, alloc + 1] with a caller constant named alloc = 9 gives {:?}", l.as_slice());
+    let b = box_arr![alloc; U4]; ck!(b.as_slice() == [9usize; 4], "box_arr![alloc; U4] with a caller constant named alloc = 9 gives {:?}", b.as_slice());
+    let b2 = box_arr![alloc; 3]; ck!(b2.as_slice() == [9usize; 3], "box_arr![alloc; 3] with a caller constant named alloc = 9 gives {:?}", b2.as_slice());
+    let bl = box_arr![alloc, alloc + 1]; ck!(bl.as_slice() == [9usize, 10], "box_arr![alloc, alloc + 1] with a caller constant named alloc = 9 gives {:?}", bl.as_slice());
+    }
+    Ok(())
+}
+fn case_hygiene_alloc_helper() -> Result<(), String> {
+    #[allow(non_upper_case_globals, non_snake_case)] {
+    const alloc_helper: usize = 9;
+    let a = arr![alloc_helper; U4]; ck!(a.as_slice() == [9usize; 4], "arr![alloc_helper; U4] with a caller constant named alloc_helper = 9 gives {:?}", a.as_slice());
+    let c = arr![alloc_helper; 3]; ck!(c.as_slice() == [9usize; 3], "arr![alloc_helper; 3] with a caller constant named alloc_helper = 9 gives {:?}", c.as_slice());
+    let l = arr![alloc_helper, alloc_helper + 1]; ck!(l.as_slice() == [9usize, 10], "arr![alloc_helper, alloc_helper + 1] with a caller constant named alloc_helper = 9 gives {:?}", l.as_slice());
+    let b = box_arr![alloc_helper; U4]; ck!(b.as_slice() == [9usize; 4], "box_arr![alloc_helper; U4] with a caller constant named alloc_helper = 9 gives {:?}", b.as_slice());
+    let b2 = box_arr![alloc_helper; 3]; ck!(b2.as_slice() == [9usize; 3], "box_arr![alloc_helper; 3] with a caller constant named alloc_helper = 9 gives {:?}", b2.as_slice());
+    let bl = box_arr![alloc_helper, alloc_helper + 1]; ck!(bl.as_slice() == [9usize, 10], "box_arr![alloc_helper, alloc_helper + 1] with a caller constant named alloc_helper = 9 gives {:?}", bl.as_slice());
+    }
+    Ok(())
+}
+fn case_hygiene_allow() -> Result<(), String> {
+    #[allow(non_upper_case_globals, non_snake_case)] {
+    const allow: usize = 9;
+    let a = arr![allow; U4]; ck!(a.as_slice() == [9usize; 4], "arr![allow; U4] with a caller constant named allow = 9 gives {:?}", a.as_slice());
+    let c = arr![allow; 3]; ck!(c.as_slice() == [9usize; 3], "arr![allow; 3] with a caller constant named allow = 9 gives {:?}", c.as_slice());
+    let l = arr![allow, allow + 1]; ck!(l.as_slice() == [9usize, 10], "arr![allow, allow + 1] with a caller constant named allow = 9 gives {:?}", l.as_slice());
+    let b = box_arr![allow; U4]; ck!(b.as_slice() == [9usize; 4], "box_arr![allow; U4] with a caller constant named allow = 9 gives {:?}", b.as_slice());
+    let b2 = box_arr![allow; 3]; ck!(b2.as_slice() == [9usize; 3], "box_arr![allow; 3] with a caller constant named allow = 9 gives {:?}", b2.as_slice());
+    let bl = box_arr![allow, allow + 1]; ck!(bl.as_slice() == [9usize, 10], "box_arr![allow, allow + 1] with a caller constant named allow = 9 gives {:?}", bl.as_slice());
+    }
+    Ok(())
+}
+fn case_hygiene_always() -> Result<(), String> {
+    #[allow(non_upper_case_globals, non_snake_case)] {
+    const always: usize = 9;
+    let a = arr![always; U4]; ck!(a.as_slice() == [9usize; 4], "arr![always; U4] with a caller constant named always = 9 gives {:?}", a.as_slice());
+    let c = arr![always; 3]; ck!(c.as_slice() == [9usize; 3], "arr![always; 3] with a caller constant named always = 9 gives {:?}", c.as_slice());
+    let l = arr![always, always + 1]; ck!(l.as_slice() == [9usize, 10], "arr![always, always + 1] with a caller constant named always = 9 gives {:?}", l.as_slice());
+    let b = box_arr![always; U4]; ck!(b.as_slice() == [9usize; 4], "box_arr![always; U4] with a caller constant named always = 9 gives {:?}", b.as_slice());
+    let b2 = box_arr![always; 3]; ck!(b2.as_slice() == [9usize; 3], "box_arr![always; 3] with a caller constant named always = 9 gives {:?}", b2.as_slice());
+    let bl = box_arr![always, always + 1]; ck!(bl.as_slice() == [9usize, 10], "box_arr![always, always + 1] with a caller constant named always = 9 gives {:?}", bl.as_slice());
+    }
+    Ok(())
+}
+fn case_hygiene_array() -> Result<(), String> {
+    #[allow(non_upper_case_globals, non_snake_case)] {
+    const array: usize = 9;
+    let a = arr![array; U4]; ck!(a.as_slice() == [9usize; 4], "arr![array; U4] with a caller constant named array = 9 gives {:?}", a.as_slice());
+    let c = arr![array; 3]; ck!(c.as_slice() == [9usize; 3], "arr![array; 3] with a caller constant named array = 9 gives {:?}", c.as_slice());
+    let l = arr![array, array + 1]; ck!(l.as_slice() == [9usize, 10], "arr![array, array + 1] with a caller constant named array = 9 gives {:?}", l.as_slice());
+    let b = box_arr![array; U4]; ck!(b.as_slice() == [9usize; 4], "box_arr![array; U4] with a caller constant named array = 9 gives {:?}", b.as_slice());
+    let b2 = box_arr![array; 3]; ck!(b2.as_slice() == [9usize; 3], "box_arr![array; 3] with a caller constant named array = 9 gives {:?}", b2.as_slice());
+    let bl = box_arr![array, array + 1]; ck!(bl.as_slice() == [9usize, 10], "box_arr![array, array + 1] with a caller constant named array = 9 gives {:?}", bl.as_slice());
+    }
+    Ok(())
+}
+fn case_hygiene_box_arr_helper() -> Result<(), String> {
+    #[allow(non_upper_case_globals, non_snake_case)] {
+    const box_arr_helper: usize = 9;
+    let a = arr![box_arr_helper; U4]; ck!(a.as_slice() == [9usize; 4], "arr![box_arr_helper; U4] with a caller constant named box_arr_helper = 9 gives {:?}", a.as_slice());
+    let c = arr![box_arr_helper; 3]; ck!(c.as_slice() == [9usize; 3], "arr![box_arr_helper; 3] with a caller constant named box_arr_helper = 9 gives {:?}", c.as_slice());
+    let l = arr![box_arr_helper, box_arr_helper + 1]; ck!(l.as_slice() == [9usize, 10], "arr![box_arr_helper, box_arr_helper + 1] with a caller constant named box_arr_helper = 9 gives {:?}", l.as_slice());
+    let b = box_arr![box_arr_helper; U4]; ck!(b.as_slice() == [9usize; 4], "box_arr![box_arr_helper; U4] with a caller constant named box_arr_helper = 9 gives {:?}", b.as_slice());
+    let b2 = box_arr![box_arr_helper; 3]; ck!(b2.as_slice() == [9usize; 3], "box_arr![box_arr_helper; 3] with a caller constant named box_arr_helper = 9 gives {:?}", b2.as_slice());
+    let bl = box_arr![box_arr_helper, box_arr_helper + 1]; ck!(bl.as_slice() == [9usize, 10], "box_arr![box_arr_helper, box_arr_helper + 1] with a caller constant named box_arr_helper = 9 gives {:?}", bl.as_slice());
+    }
+    Ok(())
+}
+fn case_hygiene_boxed() -> Result<(), String> {
+    #[allow(non_upper_case_globals, non_snake_case)] {
+    const boxed: usize = 9;
+    let a = arr![boxed; U4]; ck!(a.as_slice() == [9usize; 4], "arr![boxed; U4] with a caller constant named boxed = 9 gives {:?}", a.as_slice());
+    let c = arr![boxed; 3]; ck!(c.as_slice() == [9usize; 3], "arr![boxed; 3] with a caller constant named boxed = 9 gives {:?}", c.as_slice());
+    let l = arr![boxed, boxed + 1]; ck!(l.as_slice() == [9usize, 10], "arr![boxed, boxed + 1] with a caller constant named boxed = 9 gives {:?}", l.as_slice());
+    let b = box_arr![boxed; U4]; ck!(b.as_slice() == [9usize; 4], "box_arr![boxed; U4] with a caller constant named boxed = 9 gives {:?}", b.as_slice());
+    let b2 = box_arr![boxed; 3]; ck!(b2.as_slice() == [9usize; 3], "box_arr![boxed; 3] with a caller constant named boxed = 9 gives {:?}", b2.as_slice());
+    let bl = box_arr![boxed, boxed + 1]; ck!(bl.as_slice() == [9usize, 10], "box_arr![boxed, boxed + 1] with a caller constant named boxed = 9 gives {:?}", bl.as_slice());
+    }
+    Ok(())
+}
+fn case_hygiene_cfg() -> Result<(), String> {
+    #[allow(non_upper_case_globals, non_snake_case)] {
+    const cfg: usize = 9;
+    let a = arr![cfg; U4]; ck!(a.as_slice() == [9usize; 4], "arr![cfg; U4] with a caller constant named cfg = 9 gives {:?}", a.as_slice());
+    let c = arr![cfg; 3]; ck!(c.as_slice() == [9usize; 3], "arr![cfg; 3] with a caller constant named cfg = 9 gives {:?}", c.as_slice());
+    let l = arr![cfg, cfg + 1]; ck!(l.as_slice() == [9usize, 10], "arr![cfg, cfg + 1] with a caller constant named cfg = 9 gives {:?}", l.as_slice());
+    let b = box_arr![cfg; U4]; ck!(b.as_slice() == [9usize; 4], "box_arr![cfg; U4] with a caller constant named cfg = 9 gives {:?}", b.as_slice());
+    let b2 = box_arr![cfg; 3]; ck!(b2.as_slice() == [9usize; 3], "box_arr![cfg; 3] with a caller constant named cfg = 9 gives {:?}", b2.as_slice());
+    let bl = box_arr![cfg, cfg + 1]; ck!(bl.as_slice() == [9usize, 10], "box_arr![cfg, cfg + 1] with a caller constant named cfg = 9 gives {:?}", bl.as_slice());
+    }
+    Ok(())
+}
+fn case_hygiene_const_transmute() -> Result<(), String> {
+    #[allow(non_upper_case_globals, non_snake_case)] {
+    const const_transmute: usize = 9;
+    let a = arr![const_transmute; U4]; ck!(a.as_slice() == [9usize; 4], "arr![const_transmute; U4] with a caller constant named const_transmute = 9 gives {:?}", a.as_slice());
+    let c = arr![const_transmute; 3]; ck!(c.as_slice() == [9usize; 3], "arr![const_transmute; 3] with a caller constant named const_transmute = 9 gives {:?}", c.as_slice());
+    let l = arr![const_transmute, const_transmute + 1]; ck!(l.as_slice() == [9usize, 10], "arr![const_transmute, const_transmute + 1] with a caller constant named const_transmute = 9 gives {:?}", l.as_slice());
+    let b = box_arr![const_transmute; U4]; ck!(b.as_slice() == [9usize; 4], "box_arr![const_transmute; U4] with a caller constant named const_transmute = 9 gives {:?}", b.as_slice());
+    let b2 = box_arr![const_transmute; 3]; ck!(b2.as_slice() == [9usize; 3], "box_arr![const_transmute; 3] with a caller constant named const_transmute = 9 gives {:?}", b2.as_slice());
+    let bl = box_arr![const_transmute, const_transmute + 1]; ck!(bl.as_slice() == [9usize, 10], "box_arr![const_transmute, const_transmute + 1] with a caller constant named const_transmute = 9 gives {:?}", bl.as_slice());
+    }
+    Ok(())
+}
+fn case_hygiene_dead_code() -> Result<(), String> {
+    #[allow(non_upper_case_globals, non_snake_case)] {
+    const dead_code: usize = 9;
+    let a = arr![dead_code; U4]; ck!(a.as_slice() == [9usize; 4], "arr![dead_code; U4] with a caller constant named dead_code = 9 gives {:?}", a.as_slice());
+    let c = arr![dead_code; 3]; ck!(c.as_slice() == [9usize; 3], "arr![dead_code; 3] with a caller constant named dead_code = 9 gives {:?}", c.as_slice());
+    let l = arr![dead_code, dead_code + 1]; ck!(l.as_slice() == [9usize, 10], "arr![dead_code, dead_code + 1] with a caller constant named dead_code = 9 gives {:?}", l.as_slice());
+    let b = box_arr![dead_code; U4]; ck!(b.as_slice() == [9usize; 4], "box_arr![dead_code; U4] with a caller constant named dead_code = 9 gives {:?}", b.as_slice());
+    let b2 = box_arr![dead_code; 3]; ck!(b2.as_slice() == [9usize; 3], "box_arr![dead_code; 3] with a caller constant named dead_code = 9 gives {:?}", b2.as_slice());
+    let bl = box_arr![dead_code, dead_code + 1]; ck!(bl.as_slice() == [9usize, 10], "box_arr![dead_code, dead_code + 1] with a caller constant named dead_code = 9 gives {:?}", bl.as_slice());
+    }
+    Ok(())
+}
+fn case_hygiene_doc() -> Result<(), String> {
+    #[allow(non_upper_case_globals, non_snake_case)] {
+    const doc: usize = 9;
+    let a = arr![doc; U4]; ck!(a.as_slice() == [9usize; 4], "arr![doc; U4] with a caller constant named doc = 9 gives {:?}", a.as_slice());
+    let c = arr![doc; 3]; ck!(c.as_slice() == [9usize; 3], "arr![doc; 3] with a caller constant named doc = 9 gives {:?}", c.as_slice());
+    let l = arr![doc, doc + 1]; ck!(l.as_slice() == [9usize, 10], "arr![doc, doc + 1] with a caller constant named doc = 9 gives {:?}", l.as_slice());
+    let b = box_arr![doc; U4]; ck!(b.as_slice() == [9usize; 4], "box_arr![doc; U4] with a caller constant named doc = 9 gives {:?}", b.as_slice());
+    let b2 = box_arr![doc; 3]; ck!(b2.as_slice() == [9usize; 3], "box_arr![doc; 3] with a caller constant named doc = 9 gives {:?}", b2.as_slice());
+    let bl = box_arr![doc, doc + 1]; ck!(bl.as_slice() == [9usize, 10], "box_arr![doc, doc + 1] with a caller constant named doc = 9 gives {:?}", bl.as_slice());
+    }
+    Ok(())
+}
+fn case_hygiene_doctests_only() -> Result<(), String> {
+    #[allow(non_upper_case_globals, non_snake_case)] {
+    const doctests_only: usize = 9;
+    let a = arr![doctests_only; U4]; ck!(a.as_slice() == [9usize; 4], "arr![doctests_only; U4] with a caller constant named doctests_only = 9 gives {:?}", a.as_slice());
+    let c = arr![doctests_only; 3]; ck!(c.as_slice() == [9usize; 3], "arr![doctests_only; 3] with a caller constant named doctests_only = 9 gives {:?}", c.as_slice());
+    let l = arr![doctests_only, doctests_only + 1]; ck!(l.as_slice() == [9usize, 10], "arr![doctests_only, doctests_only + 1] with a caller constant named doctests_only = 9 gives {:?}", l.as_slice());
+    let b = box_arr![doctests_only; U4]; ck!(b.as_slice() == [9usize; 4], "box_arr![doctests_only; U4] with a caller constant named doctests_only = 9 gives {:?}", b.as_slice());
+    let b2 = box_arr![doctests_only; 3]; ck!(b2.as_slice() == [9usize; 3], "box_arr![doctests_only; 3] with a caller constant named doctests_only = 9 gives {:?}", b2.as_slice());
+    let bl = box_arr![doctests_only, doctests_only + 1]; ck!(bl.as_slice() == [9usize, 10], "box_arr![doctests_only, doctests_only + 1] with a caller constant named doctests_only = 9 gives {:?}", bl.as_slice());
+    }
+    Ok(())
+}
+fn case_hygiene_expr() -> Result<(), String> {
+    #[allow(non_upper_case_globals, non_snake_case)] {
+    const expr: usize = 9;
+    let a = arr![expr; U4]; ck!(a.as_slice() == [9usize; 4], "arr![expr; U4] with a caller constant named expr = 9 gives {:?}", a.as_slice());
+    let c = arr![expr; 3]; ck!(c.as_slice() == [9usize; 3], "arr![expr; 3] with a caller constant named expr = 9 gives {:?}", c.as_slice());
+    let l = arr![expr, expr + 1]; ck!(l.as_slice() == [9usize, 10], "arr![expr, expr + 1] with a caller constant named expr = 9 gives {:?}", l.as_slice());
+    let b = box_arr![expr; U4]; ck!(b.as_slice() == [9usize; 4], "box_arr![expr; U4] with a caller constant named expr = 9 gives {:?}", b.as_slice());
+    let b2 = box_arr![expr; 3]; ck!(b2.as_slice() == [9usize; 3], "box_arr![expr; 3] with a caller constant named expr = 9 gives {:?}", b2.as_slice());
+    let bl = box_arr![expr, expr + 1]; ck!(bl.as_slice() == [9usize, 10], "box_arr![expr, expr + 1] with a caller constant named expr = 9 gives {:?}", bl.as_slice());
+    }
+    Ok(())
+}
+fn case_hygiene_feature() -> Result<(), String> {
+    #[allow(non_upper_case_globals, non_snake_case)] {
+    const feature: usize = 9;
+    let a = arr![feature; U4]; ck!(a.as_slice() == [9usize; 4], "arr![feature; U4] with a caller constant named feature = 9 gives {:?}", a.as_slice());
+    let c = arr![feature; 3]; ck!(c.as_slice() == [9usize; 3], "arr![feature; 3] with a caller constant named feature = 9 gives {:?}", c.as_slice());
+    let l = arr![feature, feature + 1]; ck!(l.as_slice() == [9usize, 10], "arr![feature, feature + 1] with a caller constant named feature = 9 gives {:?}", l.as_slice());
+    let b = box_arr![feature; U4]; ck!(b.as_slice() == [9usize; 4], "box_arr![feature; U4] with a caller constant named feature = 9 gives {:?}", b.as_slice());
+    let b2 = box_arr![feature; 3]; ck!(b2.as_slice() == [9usize; 3], "box_arr![feature; 3] with a caller constant named feature = 9 gives {:?}", b2.as_slice());
+    let bl = box_arr![feature, feature + 1]; ck!(bl.as_slice() == [9usize, 10], "box_arr![feature, feature + 1] with a caller constant named feature = 9 gives {:?}", bl.as_slice());
+    }
+    Ok(())
+}
+fn case_hygiene_from_array() -> Result<(), String> {
+    #[allow(non_upper_case_globals, non_snake_case)] {
+    const from_array: usize = 9;
+    let a = arr![from_array; U4]; ck!(a.as_slice() == [9usize; 4], "arr![from_array; U4] with a caller constant named from_array = 9 gives {:?}", a.as_slice());
+    let c = arr![from_array; 3]; ck!(c.as_slice() == [9usize; 3], "arr![from_array; 3] with a caller constant named from_array = 9 gives {:?}", c.as_slice());
+    let l = arr![from_array, from_array + 1]; ck!(l.as_slice() == [9usize, 10], "arr![from_array, from_array + 1] with a caller constant named from_array = 9 gives {:?}", l.as_slice());
+    let b = box_arr![from_array; U4]; ck!(b.as_slice() == [9usize; 4], "box_arr![from_array; U4] with a caller constant named from_array = 9 gives {:?}", b.as_slice());
+    let b2 = box_arr![from_array; 3]; ck!(b2.as_slice() == [9usize; 3], "box_arr![from_array; 3] with a caller constant named from_array = 9 gives {:?}", b2.as_slice());
+    let bl = box_arr![from_array, from_array + 1]; ck!(bl.as_slice() == [9usize, 10], "box_arr![from_array, from_array + 1] with a caller constant named from_array = 9 gives {:?}", bl.as_slice());
+    }
+    Ok(())
+}
+fn case_hygiene_from_raw() -> Result<(), String> {
+    #[allow(non_upper_case_globals, non_snake_case)] {
+    const from_raw: usize = 9;
+    let a = arr![from_raw; U4]; ck!(a.as_slice() == [9usize; 4], "arr![from_raw; U4] with a caller constant named from_raw = 9 gives {:?}", a.as_slice());
+    let c = arr![from_raw; 3]; ck!(c.as_slice() == [9usize; 3], "arr![from_raw; 3] with a caller constant named from_raw = 9 gives {:?}", c.as_slice());
+    let l = arr![from_raw, from_raw + 1]; ck!(l.as_slice() == [9usize, 10], "arr![from_raw, from_raw + 1] with a caller constant named from_raw = 9 gives {:?}", l.as_slice());
+    let b = box_arr![from_raw; U4]; ck!(b.as_slice() == [9usize; 4], "box_arr![from_raw; U4] with a caller constant named from_raw = 9 gives {:?}", b.as_slice());
+    let b2 = box_arr![from_raw; 3]; ck!(b2.as_slice() == [9usize; 3], "box_arr![from_raw; 3] with a caller constant named from_raw = 9 gives {:?}", b2.as_slice());
+    let bl = box_arr![from_raw, from_raw + 1]; ck!(bl.as_slice() == [9usize, 10], "box_arr![from_raw, from_raw + 1] with a caller constant named from_raw = 9 gives {:?}", bl.as_slice());
+    }
+    Ok(())
+}
+fn case_hygiene_hidden() -> Result<(), String> {
+    #[allow(non_upper_case_globals, non_snake_case)] {
+    const hidden: usize = 9;
+    let a = arr![hidden; U4]; ck!(a.as_slice() == [9usize; 4], "arr![hidden; U4] with a caller constant named hidden = 9 gives {:?}", a.as_slice());
+    let c = arr![hidden; 3]; ck!(c.as_slice() == [9usize; 3], "arr![hidden; 3] with a caller constant named hidden = 9 gives {:?}", c.as_slice());
+    let l = arr![hidden, hidden + 1]; ck!(l.as_slice() == [9usize, 10], "arr![hidden, hidden + 1] with a caller constant named hidden = 9 gives {:?}", l.as_slice());
+    let b = box_arr![hidden; U4]; ck!(b.as_slice() == [9usize; 4], "box_arr![hidden; U4] with a caller constant named hidden = 9 gives {:?}", b.as_slice());
+    let b2 = box_arr![hidden; 3]; ck!(b2.as_slice() == [9usize; 3], "box_arr![hidden; 3] with a caller constant named hidden = 9 gives {:?}", b2.as_slice());
+    let bl = box_arr![hidden, hidden + 1]; ck!(bl.as_slice() == [9usize, 10], "box_arr![hidden, hidden + 1] with a caller constant named hidden = 9 gives {:?}", bl.as_slice());
+    }
+    Ok(())
+}
+fn case_hygiene_inline() -> Result<(), String> {
+    #[allow(non_upper_case_globals, non_snake_case)] {
+    const inline: usize = 9;
+    let a = arr![inline; U4]; ck!(a.as_slice() == [9usize; 4], "arr![inline; U4] with a caller constant named inline = 9 gives {:?}", a.as_slice());
+    let c = arr![inline; 3]; ck!(c.as_slice() == [9usize; 3], "arr![inline; 3] with a caller constant named inline = 9 gives {:?}", c.as_slice());
+    let l = arr![inline, inline + 1]; ck!(l.as_slice() == [9usize, 10], "arr![inline, inline + 1] with a caller constant named inline = 9 gives {:?}", l.as_slice());
+    let b = box_arr![inline; U4]; ck!(b.as_slice() == [9usize; 4], "box_arr![inline; U4] with a caller constant named inline = 9 gives {:?}", b.as_slice());
+    let b2 = box_arr![inline; 3]; ck!(b2.as_slice() == [9usize; 3], "box_arr![inline; 3] with a caller constant named inline = 9 gives {:?}", b2.as_slice());
+    let bl = box_arr![inline, inline + 1]; ck!(bl.as_slice() == [9usize, 10], "box_arr![inline, inline + 1] with a caller constant named inline = 9 gives {:?}", bl.as_slice());
+    }
+    Ok(())
+}
+fn case_hygiene_into_raw() -> Result<(), String> {
+    #[allow(non_upper_case_globals, non_snake_case)] {
+    const into_raw: usize = 9;
+    let a = arr![into_raw; U4]; ck!(a.as_slice() == [9usize; 4], "arr![into_raw; U4] with a caller constant named into_raw = 9 gives {:?}", a.as_slice());
+    let c = arr![into_raw; 3]; ck!(c.as_slice() == [9usize; 3], "arr![into_raw; 3] with a caller constant named into_raw = 9 gives {:?}", c.as_slice());
+    let l = arr![into_raw, into_raw + 1]; ck!(l.as_slice() == [9usize, 10], "arr![into_raw, into_raw + 1] with a caller constant named into_raw = 9 gives {:?}", l.as_slice());
+    let b = box_arr![into_raw; U4]; ck!(b.as_slice() == [9usize; 4], "box_arr![into_raw; U4] with a caller constant named into_raw = 9 gives {:?}", b.as_slice());
+    let b2 = box_arr![into_raw; 3]; ck!(b2.as_slice() == [9usize; 3], "box_arr![into_raw; 3] with a caller constant named into_raw = 9 gives {:?}", b2.as_slice());
+    let bl = box_arr![into_raw, into_raw + 1]; ck!(bl.as_slice() == [9usize, 10], "box_arr![into_raw, into_raw + 1] with a caller constant named into_raw = 9 gives {:?}", bl.as_slice());
+    }
+    Ok(())
+}
+fn case_hygiene_macro_export() -> Result<(), String> {
+    #[allow(non_upper_case_globals, non_snake_case)] {
+    const macro_export: usize = 9;
+    let a = arr![macro_export; U4]; ck!(a.as_slice() == [9usize; 4], "arr![macro_export; U4] with a caller constant named macro_export = 9 gives {:?}", a.as_slice());
+    let c = arr![macro_export; 3]; ck!(c.as_slice() == [9usize; 3], "arr![macro_export; 3] with a caller constant named macro_export = 9 gives {:?}", c.as_slice());
+    let l = arr![macro_export, macro_export + 1]; ck!(l.as_slice() == [9usize, 10], "arr![macro_export, macro_export + 1] with a caller constant named macro_export = 9 gives {:?}", l.as_slice());
+    let b = box_arr![macro_export; U4]; ck!(b.as_slice() == [9usize; 4], "box_arr![macro_export; U4] with a caller constant named macro_export = 9 gives {:?}", b.as_slice());
+    let b2 = box_arr![macro_export; 3]; ck!(b2.as_slice() == [9usize; 3], "box_arr![macro_export; 3] with a caller constant named macro_export = 9 gives {:?}", b2.as_slice());
+    let bl = box_arr![macro_export, macro_export + 1]; ck!(bl.as_slice() == [9usize, 10], "box_arr![macro_export, macro_export + 1] with a caller constant named macro_export = 9 gives {:?}", bl.as_slice());
+    }
+    Ok(())
+}
+fn case_hygiene_new() -> Result<(), String> {
+    #[allow(non_upper_case_globals, non_snake_case)] {
+    const new: usize = 9;
+    let a = arr![new; U4]; ck!(a.as_slice() == [9usize; 4], "arr![new; U4] with a caller constant named new = 9 gives {:?}", a.as_slice());
+    let c = arr![new; 3]; ck!(c.as_slice() == [9usize; 3], "arr![new; 3] with a caller constant named new = 9 gives {:?}", c.as_slice());
+    let l = arr![new, new + 1]; ck!(l.as_slice() == [9usize, 10], "arr![new, new + 1] with a caller constant named new = 9 gives {:?}", l.as_slice());
+    let b = box_arr![new; U4]; ck!(b.as_slice() == [9usize; 4], "box_arr![new; U4] with a caller constant named new = 9 gives {:?}", b.as_slice());
+    let b2 = box_arr![new; 3]; ck!(b2.as_slice() == [9usize; 3], "box_arr![new; 3] with a caller constant named new = 9 gives {:?}", b2.as_slice());
+    let bl = box_arr![new, new + 1]; ck!(bl.as_slice() == [9usize, 10], "box_arr![new, new + 1] with a caller constant named new = 9 gives {:?}", bl.as_slice());
+    }
+    Ok(())
+}
+fn case_hygiene_try_from_vec() -> Result<(), String> {
+    #[allow(non_upper_case_globals, non_snake_case)] {
+    const try_from_vec: usize = 9;
+    let a = arr![try_from_vec; U4]; ck!(a.as_slice() == [9usize; 4], "arr![try_from_vec; U4] with a caller constant named try_from_vec = 9 gives {:?}", a.as_slice());
+    let c = arr![try_from_vec; 3]; ck!(c.as_slice() == [9usize; 3], "arr![try_from_vec; 3] with a caller constant named try_from_vec = 9 gives {:?}", c.as_slice());
+    let l = arr![try_from_vec, try_from_vec + 1]; ck!(l.as_slice() == [9usize, 10], "arr![try_from_vec, try_from_vec + 1] with a caller constant named try_from_vec = 9 gives {:?}", l.as_slice());
+    let b = box_arr![try_from_vec; U4]; ck!(b.as_slice() == [9usize; 4], "box_arr![try_from_vec; U4] with a caller constant named try_from_vec = 9 gives {:?}", b.as_slice());
+    let b2 = box_arr![try_from_vec; 3]; ck!(b2.as_slice() == [9usize; 3], "box_arr![try_from_vec; 3] with a caller constant named try_from_vec = 9 gives {:?}", b2.as_slice());
+    let bl = box_arr![try_from_vec, try_from_vec + 1]; ck!(bl.as_slice() == [9usize, 10], "box_arr![try_from_vec, try_from_vec + 1] with a caller constant named try_from_vec = 9 gives {:?}", bl.as_slice());
+    }
+    Ok(())
+}
+fn case_hygiene_ty() -> Result<(), String> {
+    #[allow(non_upper_case_globals, non_snake_case)] {
+    const ty: usize = 9;
+    let a = arr![ty; U4]; ck!(a.as_slice() == [9usize; 4], "arr![ty; U4] with a caller constant named ty = 9 gives {:?}", a.as_slice());
+    let c = arr![ty; 3]; ck!(c.as_slice() == [9usize; 3], "arr![ty; 3] with a caller constant named ty = 9 gives {:?}", c.as_slice());
+    let l = arr![ty, ty + 1]; ck!(l.as_slice() == [9usize, 10], "arr![ty, ty + 1] with a caller constant named ty = 9 gives {:?}", l.as_slice());
+    let b = box_arr![ty; U4]; ck!(b.as_slice() == [9usize; 4], "box_arr![ty; U4] with a caller constant named ty = 9 gives {:?}", b.as_slice());
+    let b2 = box_arr![ty; 3]; ck!(b2.as_slice() == [9usize; 3], "box_arr![ty; 3] with a caller constant named ty = 9 gives {:?}", b2.as_slice());
+    let bl = box_arr![ty, ty + 1]; ck!(bl.as_slice() == [9usize, 10], "box_arr![ty, ty + 1] with a caller constant named ty = 9 gives {:?}", bl.as_slice());
+    }
+    Ok(())
+}
+fn case_hygiene_typenum() -> Result<(), String> {
+    #[allow(non_upper_case_globals, non_snake_case)] {
+    const typenum: usize = 9;
+    let a = arr![typenum; U4]; ck!(a.as_slice() == [9usize; 4], "arr![typenum; U4] with a caller constant named typenum = 9 gives {:?}", a.as_slice());
+    let c = arr![typenum; 3]; ck!(c.as_slice() == [9usize; 3], "arr![typenum; 3] with a caller constant named typenum = 9 gives {:?}", c.as_slice());
+    let l = arr![typenum, typenum + 1]; ck!(l.as_slice() == [9usize, 10], "arr![typenum, typenum + 1] with a caller constant named typenum = 9 gives {:?}", l.as_slice());
+    let b = box_arr![typenum; U4]; ck!(b.as_slice() == [9usize; 4], "box_arr![typenum; U4] with a caller constant named typenum = 9 gives {:?}", b.as_slice());
+    let b2 = box_arr![typenum; 3]; ck!(b2.as_slice() == [9usize; 3], "box_arr![typenum; 3] with a caller constant named typenum = 9 gives {:?}", b2.as_slice());
+    let bl = box_arr![typenum, typenum + 1]; ck!(bl.as_slice() == [9usize, 10], "box_arr![typenum, typenum + 1] with a caller constant named typenum = 9 gives {:?}", bl.as_slice());
+    }
+    Ok(())
+}
+fn case_hygiene_unit() -> Result<(), String> {
+    #[allow(non_upper_case_globals, non_snake_case)] {
+    const unit: usize = 9;
+    let a = arr![unit; U4]; ck!(a.as_slice() == [9usize; 4], "arr![unit; U4] with a caller constant named unit = 9 gives {:?}", a.as_slice());
+    let c = arr![unit; 3]; ck!(c.as_slice() == [9usize; 3], "arr![unit; 3] with a caller constant named unit = 9 gives {:?}", c.as_slice());
+    let l = arr![unit, unit + 1]; ck!(l.as_slice() == [9usize, 10], "arr![unit, unit + 1] with a caller constant named unit = 9 gives {:?}", l.as_slice());
+    let b = box_arr![unit; U4]; ck!(b.as_slice() == [9usize; 4], "box_arr![unit; U4] with a caller constant named unit = 9 gives {:?}", b.as_slice());
+    let b2 = box_arr![unit; 3]; ck!(b2.as_slice() == [9usize; 3], "box_arr![unit; 3] with a caller constant named unit = 9 gives {:?}", b2.as_slice());
+    let bl = box_arr![unit, unit + 1]; ck!(bl.as_slice() == [9usize, 10], "box_arr![unit, unit + 1] with a caller constant named unit = 9 gives {:?}", bl.as_slice());
+    }
+    Ok(())
+}
+fn case_hygiene_unwrap() -> Result<(), String> {
+    #[allow(non_upper_case_globals, non_snake_case)] {
+    const unwrap: usize = 9;
+    let a = arr![unwrap; U4]; ck!(a.as_slice() == [9usize; 4], "arr![unwrap; U4] with a caller constant named unwrap = 9 gives {:?}", a.as_slice());
+    let c = arr![unwrap; 3]; ck!(c.as_slice() == [9usize; 3], "arr![unwrap; 3] with a caller constant named unwrap = 9 gives {:?}", c.as_slice());
+    let l = arr![unwrap, unwrap + 1]; ck!(l.as_slice() == [9usize, 10], "arr![unwrap, unwrap + 1] with a caller constant named unwrap = 9 gives {:?}", l.as_slice());
+    let b = box_arr![unwrap; U4]; ck!(b.as_slice() == [9usize; 4], "box_arr![unwrap; U4] with a caller constant named unwrap = 9 gives {:?}", b.as_slice());
+    let b2 = box_arr![unwrap; 3]; ck!(b2.as_slice() == [9usize; 3], "box_arr![unwrap; 3] with a caller constant named unwrap = 9 gives {:?}", b2.as_slice());
+    let bl = box_arr![unwrap, unwrap + 1]; ck!(bl.as_slice() == [9usize, 10], "box_arr![unwrap, unwrap + 1] with a caller constant named unwrap = 9 gives {:?}", bl.as_slice());
+    }
+    Ok(())
+}
+fn case_hygiene_unwrap_unchecked() -> Result<(), String> {
+    #[allow(non_upper_case_globals, non_snake_case)] {
+    const unwrap_unchecked: usize = 9;
+    let a = arr![unwrap_unchecked; U4]; ck!(a.as_slice() == [9usize; 4], "arr![unwrap_unchecked; U4] with a caller constant named unwrap_unchecked = 9 gives {:?}", a.as_slice());
+    let c = arr![unwrap_unchecked; 3]; ck!(c.as_slice() == [9usize; 3], "arr![unwrap_unchecked; 3] with a caller constant named unwrap_unchecked = 9 gives {:?}", c.as_slice());
+    let l = arr![unwrap_unchecked, unwrap_unchecked + 1]; ck!(l.as_slice() == [9usize, 10], "arr![unwrap_unchecked, unwrap_unchecked + 1] with a caller constant named unwrap_unchecked = 9 gives {:?}", l.as_slice());
+    let b = box_arr![unwrap_unchecked; U4]; ck!(b.as_slice() == [9usize; 4], "box_arr![unwrap_unchecked; U4] with a caller constant named unwrap_unchecked = 9 gives {:?}", b.as_slice());
+    let b2 = box_arr![unwrap_unchecked; 3]; ck!(b2.as_slice() == [9usize; 3], "box_arr![unwrap_unchecked; 3] with a caller constant named unwrap_unchecked = 9 gives {:?}", b2.as_slice());
+    let bl = box_arr![unwrap_unchecked, unwrap_unchecked + 1]; ck!(bl.as_slice() == [9usize, 10], "box_arr![unwrap_unchecked, unwrap_unchecked + 1] with a caller constant named unwrap_unchecked = 9 gives {:?}", bl.as_slice());
+    }
+    Ok(())
+}
+fn case_hygiene_vec() -> Result<(), String> {
+    #[allow(non_upper_case_globals, non_snake_case)] {
+    const vec: usize = 9;
+    let a = arr![vec; U4]; ck!(a.as_slice() == [9usize; 4], "arr![vec; U4] with a caller constant named vec = 9 gives {:?}", a.as_slice());
+    let c = arr![vec; 3]; ck!(c.as_slice() == [9usize; 3], "arr![vec; 3] with a caller constant named vec = 9 gives {:?}", c.as_slice());
+    let l = arr![vec, vec + 1]; ck!(l.as_slice() == [9usize, 10], "arr![vec, vec + 1] with a caller constant named vec = 9 gives {:?}", l.as_slice());
+    let b = box_arr![vec; U4]; ck!(b.as_slice() == [9usize; 4], "box_arr![vec; U4] with a caller constant named vec = 9 gives {:?}", b.as_slice());
+    let b2 = box_arr![vec; 3]; ck!(b2.as_slice() == [9usize; 3], "box_arr![vec; 3] with a caller constant named vec = 9 gives {:?}", b2.as_slice());
+    let bl = box_arr![vec, vec + 1]; ck!(bl.as_slice() == [9usize, 10], "box_arr![vec, vec + 1] with a caller constant named vec = 9 gives {:?}", bl.as_slice());
+    }
+    Ok(())
+}
 fn main() {
     std::panic::set_hook(Box::new(|_| {}));
     let cases: Vec<(&str, fn() -> Result<(), String>)> = vec![
@@ -3297,7 +3830,55 @@ fn main() {
         ("repeat_noncopy_0", case_repeat_noncopy_0),
         ("repeat_noncopy_1", case_repeat_noncopy_1),
         ("misc", case_misc),
+        ("cfg_elements_first", case_cfg_elements_first),
+        ("cfg_elements_middle", case_cfg_elements_middle),
+        ("cfg_elements_last", case_cfg_elements_last),
+        ("cfg_elements_all", case_cfg_elements_all),
+        ("cfg_elements_enabled", case_cfg_elements_enabled),
+        ("cfg_elements_two", case_cfg_elements_two),
+        ("temporaries", case_temporaries),
+        ("inference", case_inference),
+        ("hygiene_ArrayLength", case_hygiene_ArrayLength),
+        ("hygiene_Box", case_hygiene_Box),
+        ("hygiene_Const", case_hygiene_Const),
+        ("hygiene_DocTests", case_hygiene_DocTests),
+        ("hygiene_GenericArray", case_hygiene_GenericArray),
+        ("hygiene_IntoArrayLength", case_hygiene_IntoArrayLength),
+        ("hygiene_USIZE", case_hygiene_USIZE),
+        ("hygiene_Unsigned", case_hygiene_Unsigned),
+        ("hygiene_Vec", case_hygiene_Vec),
+        ("hygiene__empty", case_hygiene__empty),
+        ("hygiene_alloc", case_hygiene_alloc),
+        ("hygiene_alloc_helper", case_hygiene_alloc_helper),
+        ("hygiene_allow", case_hygiene_allow),
+        ("hygiene_always", case_hygiene_always),
+        ("hygiene_array", case_hygiene_array),
+        ("hygiene_box_arr_helper", case_hygiene_box_arr_helper),
+        ("hygiene_boxed", case_hygiene_boxed),
+        ("hygiene_cfg", case_hygiene_cfg),
+        ("hygiene_const_transmute", case_hygiene_const_transmute),
+        ("hygiene_dead_code", case_hygiene_dead_code),
+        ("hygiene_doc", case_hygiene_doc),
+        ("hygiene_doctests_only", case_hygiene_doctests_only),
+        ("hygiene_expr", case_hygiene_expr),
+        ("hygiene_feature", case_hygiene_feature),
+        ("hygiene_from_array", case_hygiene_from_array),
+        ("hygiene_from_raw", case_hygiene_from_raw),
+        ("hygiene_hidden", case_hygiene_hidden),
+        ("hygiene_inline", case_hygiene_inline),
+        ("hygiene_into_raw", case_hygiene_into_raw),
+        ("hygiene_macro_export", case_hygiene_macro_export),
+        ("hygiene_new", case_hygiene_new),
+        ("hygiene_try_from_vec", case_hygiene_try_from_vec),
+        ("hygiene_ty", case_hygiene_ty),
+        ("hygiene_typenum", case_hygiene_typenum),
+        ("hygiene_unit", case_hygiene_unit),
+        ("hygiene_unwrap", case_hygiene_unwrap),
+        ("hygiene_unwrap_unchecked", case_hygiene_unwrap_unchecked),
+        ("hygiene_vec", case_hygiene_vec),
     ];
-    let mut bad = 0; for (n, f) in &cases { match std::panic::catch_unwind(f) { Ok(Ok(())) => {}, Ok(Err(e)) => { bad += 1; println!("FAIL {n}: {e}"); }, Err(_) => { bad += 1; println!("FAIL {n}: panicked"); } } }
-    println!("RAN {} FAILED {}", cases.len(), bad);
+    let from: usize = std::env::args().nth(1).and_then(|s| s.parse().ok()).unwrap_or(0);
+    use std::io::Write;
+    let mut bad = 0; for (k, (n, f)) in cases.iter().enumerate().skip(from) { println!("START {k} {n}"); std::io::stdout().flush().ok(); match std::panic::catch_unwind(f) { Ok(Ok(())) => {}, Ok(Err(e)) => { bad += 1; println!("FAIL {n}: {e}"); }, Err(_) => { bad += 1; println!("FAIL {n}: panicked"); } } }
+    println!("RAN {} FAILED {}", cases.len() - from.min(cases.len()), bad);
 }
